@@ -79,6 +79,9 @@ pub struct Config {
     /// the service may be dropped while calls are in flight
     #[serde(default)]
     drop_service: bool,
+    /// the factory is dropped as soon as `new_service` has returned, before its future is polled
+    #[serde(default)]
+    drop_factory: bool,
 }
 
 #[derive(Serialize, Deserialize, Clone, Debug, PartialEq)]
@@ -955,6 +958,14 @@ fn run_sim(prop: &str, cfg: &Config, ch: &mut Chooser<Action>, ctx: &mut RunCtx)
     if cfg.factory_mode {
         let fac = build_f(&cfg.ftree);
         let mut fut = fac.new_service(cfg.root_cfg);
+        // the construction future owns what it needs: the factory may go away while it runs
+        let _fac_kept = if cfg.drop_factory {
+            drop(fac);
+            ctx.bump("probe.factory_dropped_during_init");
+            None
+        } else {
+            Some(fac)
+        };
         let mut rf = ref_of(&cfg.ftree, cfg.root_cfg);
         let mut task = TaskWake::new();
         let mut parked = false;
@@ -1462,6 +1473,7 @@ impl Engine for SvcSim {
             w_adv: *rng.pick(&[1, 2, 4]),
             w_poll: *rng.pick(&[2, 4, 6]),
             drop_service: rng.chance(1, 3),
+            drop_factory: rng.chance(1, 3),
         }
     }
     fn max_actions(_: &str, cfg: &Config) -> usize {
@@ -1478,7 +1490,7 @@ impl Engine for SvcSim {
             rule: format!(
                 "random combinator trees up to depth 3 over and_then / map / map_err / apply_fn / Transform-wrapped / boxed::service / boxed::rc_service / Rc / RefCell / Box (type-erased between nodes with the crate's own boxed wrappers) plus 6 fully static nestings (one of them a service that re-enters its own RefCell handle from inside call), and factory trees over and_then / map / map_err / map_init_err / map_config / apply_fn_factory / apply(Transform) / boxed::factory / Rc / fn_factory_with_config plus 6 static ones (unit_config, apply_cfg, apply_cfg_factory, fn_factory, Arc); scripted leaves whose readiness, call and construction futures advance only by simulator actions (with a wake); strict-wake executor with a fresh waker per poll; {}; non-trivial = >=1 call completed and >=1 Pending poll (or a factory run); distinct = distinct event-trace hash",
                 if prop == "C11" {
-                    "oracle = tree interpreter: result value with trace, exact sequence of inner calls (also for calls that outlive the service: in a third of the runs the service may be dropped while calls are in flight), one build per inner factory with the supplied config, first init error"
+                    "oracle = tree interpreter: result value with trace, exact sequence of inner calls (also for calls that outlive the service: in a third of the runs the service may be dropped while calls are in flight, in a third the factory is dropped before its construction future is first polled), one build per inner factory with the supplied config, first init error"
                 } else {
                     "oracle = readiness conjunction / error propagation from the interpreter, waker-coverage rule for every pending leaf, no poll after completion, no stage twice, Pending only with a cause"
                 }
@@ -1490,7 +1502,7 @@ impl Engine for SvcSim {
     }
     fn required_probes(prop: &str, _tier: Tier) -> Vec<&'static str> {
         if prop == "C11" {
-            vec!["probe.call_ok", "probe.call_err", "probe.init_error", "probe.factory_pending", "probe.service_dropped_with_calls_in_flight"]
+            vec!["probe.call_ok", "probe.call_err", "probe.init_error", "probe.factory_pending", "probe.service_dropped_with_calls_in_flight", "probe.factory_dropped_during_init"]
         } else {
             vec!["probe.ready_pending", "probe.ready_ok", "probe.ready_err", "probe.factory_pending", "probe.future_cancelled"]
         }
